@@ -29,7 +29,7 @@ PROBES = ['get-readable', 'get-write-only-refused', 'set-writable', 'set-read-on
           'local-assign-silent', 'remote-set-emits', 'same-name-two-interfaces',
           'inherited-property', 'empty-interface-name', 'get-after-remote-set',
           'two-instances-of-one-class', 'exported-on-an-older-connection-first',
-          'properties-declared-on-abstract-class', 'misdeclared-sibling-rejected-first']
+          'properties-declared-on-abstract-class', 'own-interface-has-get-set-getall', 'misdeclared-sibling-rejected-first']
 COMPONENTS = {
     'real': ['txdbus.objects.DBusProperty / DBusObject (_dbus_PropertyGet/Set/GetAll, '
              'getAllProperties, emitSignal)', 'DBusObjectHandler dispatch',
@@ -53,6 +53,12 @@ def scenario(ctx):
     sched = Scheduler(ctx)
 
     def hook(obj, mspec, args, caller):
+        # members of an object's own key-value store interface that happen to be called like the
+        # members of org.freedesktop.DBus.Properties
+        if mspec.name == 'Get':
+            return 'store:' + args[0]
+        if mspec.name == 'GetAll':
+            return ['store']
         return None
 
     objs = {}         # path -> dict(obj, cs, reg {(iface, prop): [sig, ref, acc, emits]})
@@ -73,6 +79,14 @@ def scenario(ctx):
                                             ds.pick(['true', 'false'])))
             if not any(d.props for d in allifs):
                 allifs[0].props.append(('Level', 'i', 'readwrite', 'true'))
+            if ds.flag(0.3) and not cs.ifaces[0].method('Get'):
+                # the object's own interface is a small key-value store: Get / Set / GetAll
+                for mn, si, so in (('Get', 's', 's'), ('Set', 'ss', ''), ('GetAll', '', 'as')):
+                    cs.ifaces[0].methods.append((mn, si, so))
+                    cs.methods[(cs.ifaces[0].name, mn)] = objgen.MSpec(cs.ifaces[0].name, mn, si, so,
+                                                                       'deco', False)
+                cs.store_iface = cs.ifaces[0].name
+                sim.probe('own-interface-has-get-set-getall')
             if i == 1 and ds.flag(0.5):
                 # the second object is another instance of the first object's class
                 cs = objs[paths[0]]['cs']
@@ -179,6 +193,18 @@ def scenario(ctx):
     def op_remote():
         p = ds.pick(paths)
         rec = objs[p]
+        store = getattr(rec['cs'], 'store_iface', None)
+        if store and ds.flag(0.3):
+            # a call to the store member of the same name
+            mn = ds.pick(['Get', 'Set', 'GetAll'])
+            sig, body, want = {'Get': ('s', ['k1'], ['store:k1']), 'Set': ('ss', ['k1', 'v'], []),
+                               'GetAll': ('', [], [['store']])}[mn]
+            m = daemon.call(p, mn, store, sig, body, sender=ds.pick([':1.60', ':1.61']), dest=rig.bus_name)
+            q = {'path': p, 'iface': store, 'prop': mn, 'key': None, 'variant': 0, 'kind': 'store',
+                 'want': want, 'serial': m.serial, 'end': pipe_dc.total}
+            queries.append(q)
+            sim.log('op', 'store', p, mn)
+            return
         keys = all_props(rec)
         k = keys[ds.choose(len(keys))]
         ps = rec['reg'][k][0]
@@ -245,6 +271,9 @@ def scenario(ctx):
         rig.sent"""
         rec = objs[q['path']]
         iname, pn = q['iface'], q['prop']
+        if q['kind'] == 'store':
+            q['exp'] = ('store', q['want'])
+            return
         if q['kind'] == 'getall':
             sim.probe('getall')
             if q['variant'] == 2:
@@ -324,6 +353,12 @@ def scenario(ctx):
         r = rs[0]
         exp = q['exp']
         what = '%s(%s, %s) on %s' % (q['kind'], q['iface'], q['prop'], q['path'])
+        if exp[0] == 'store':
+            if r.mtype != rc.METHOD_RETURN or rc.canon(rc.plain_body(r.sig, r.body)) != rc.canon(exp[1]):
+                raise Violation('C17/store-call', q['prop'],
+                                'call to the object\'s own %s.%s answered %r, its implementation returns %r'
+                                % (q['iface'], q['prop'], r.describe(), exp[1]))
+            return
         if exp[0] == 'error':
             if r.mtype != rc.ERROR:
                 raise Violation('C17/should-fail', q['kind'],
